@@ -125,6 +125,26 @@ type DP struct {
 
 func (c *DP) Validate() error { return validateLevel(c) }
 
+// ---- keys that extend a sibling key with "_suffix" (host / host_name, port / port_max, backend.timeout / backend.timeout_max):
+// once underscores are read as separators the longer key looks like a child of the shorter one ----------------------------
+
+type DXBackend struct {
+	Timeout    time.Duration `mapstructure:"timeout"`
+	TimeoutMax time.Duration `mapstructure:"timeout_max"`
+}
+
+func (c *DXBackend) Validate() error { return validateLevel(c) }
+
+type DX struct {
+	Host     string    `mapstructure:"host"`
+	HostName string    `mapstructure:"host_name"`
+	Port     int       `mapstructure:"port"`
+	PortMax  int       `mapstructure:"port_max"`
+	Backend  DXBackend `mapstructure:"backend"`
+}
+
+func (c *DX) Validate() error { return validateLevel(c) }
+
 // ---- required-field patterns ------------------------------------------------------------------------------
 
 // requiredNow is the required-field pattern of the case being run ("TypeName.FieldName" -> required).
@@ -273,7 +293,8 @@ var (
 	specD3 = describe("D3", D3{})
 	specDC = describe("DC", DC{})
 	specDP = describe("DP", DP{})
-	family = []*structSpec{specD1, specD2, specD3, specDC, specDP}
+	specDX = describe("DX", DX{})
+	family = []*structSpec{specD1, specD2, specD3, specDC, specDP, specDX}
 )
 
 func specByName(n string) *structSpec {
